@@ -73,7 +73,7 @@ theorem createFromStr_length (name : List Nat) (sfn : Bytes) (h : Sfn.createFrom
         split at h
         · cases h
         · injection h with h
-          rw [← h, sfn_loop_length _ _ _ hl]
+          rw [← h, C18.kanjiStore_length, sfn_loop_length _ _ _ hl]
           rfl
 
 /-! ### A blanked cluster -/
